@@ -144,12 +144,18 @@ Definition decide (f : lowflags) (w : world) (path : bytes) (is_dir : bool) : mt
 (* the documented meaning of the flags: a source that is switched off has no opinion *)
 Definition src_on (b : bool) (m : mtch) : mtch := if b then m else MNone.
 
+(* gitrepository-layout(5): a repository's work tree root holds `.git`, either the repository directory
+   itself or a "gitfile", a plain file `gitdir: <path>` (linked worktrees, submodules).  Both mark a
+   repository root, wherever the directory lies relative to the search root. *)
+Definition repo_marker (k : dotgit) : bool :=
+  match k with GitAbsent => false | _ => true end.
+
 Definition wdview (f : lowflags) (above : bool) (path : bytes) (is_dir : bool) (d : dirinfo) : dview :=
   {| v_custom := src_on (negb (f_no_ignore_dot f)) (di_custom d path is_dir);
      v_ignore := src_on (negb (f_no_ignore_dot f)) (di_dotignore d path is_dir);
      v_gi := src_on (negb (f_no_ignore_vcs f)) (di_gitignore d path is_dir);
      v_excl := src_on (negb (f_no_ignore_vcs f) && negb (f_no_ignore_exclude f)) (di_exclude d path is_dir);
-     v_git := negb (f_no_require_git f) && negb (f_no_ignore_vcs f) && di_has_dotgit d;
+     v_git := negb (f_no_require_git f) && negb (f_no_ignore_vcs f) && repo_marker (di_dotgit d);
      v_above := above |}.
 
 Definition last_dir (w : world) : bytes := match rev (w_below w) with d :: _ => di_path d | [] => [] end.
@@ -180,20 +186,30 @@ Definition map_cmd (g : cmdline -> cmdline) (w : world) : world :=
 
 Definition di_no_dot (d : dirinfo) : dirinfo :=
   {| di_path := di_path d; di_custom := g_empty; di_dotignore := g_empty; di_gitignore := di_gitignore d;
-     di_exclude := di_exclude d; di_has_dotgit := di_has_dotgit d |}.
+     di_exclude := di_exclude d; di_dotgit := di_dotgit d |}.
 Definition di_no_exclude (d : dirinfo) : dirinfo :=
   {| di_path := di_path d; di_custom := di_custom d; di_dotignore := di_dotignore d; di_gitignore := di_gitignore d;
-     di_exclude := g_empty; di_has_dotgit := di_has_dotgit d |}.
+     di_exclude := g_empty; di_dotgit := di_dotgit d |}.
 Definition di_no_vcs (d : dirinfo) : dirinfo :=
   {| di_path := di_path d; di_custom := di_custom d; di_dotignore := di_dotignore d; di_gitignore := g_empty;
-     di_exclude := g_empty; di_has_dotgit := di_has_dotgit d |}.
+     di_exclude := g_empty; di_dotgit := di_dotgit d |}.
 Definition di_no_rules (d : dirinfo) : dirinfo :=
   {| di_path := di_path d; di_custom := g_empty; di_dotignore := g_empty; di_gitignore := g_empty;
-     di_exclude := g_empty; di_has_dotgit := di_has_dotgit d |}.
+     di_exclude := g_empty; di_dotgit := di_dotgit d |}.
 Definition cmd_no_global (c : cmdline) : cmdline :=
   {| c_globs := c_globs c; c_types := c_types c; c_ignore_files := c_ignore_files c; c_global := g_empty |}.
 Definition cmd_no_files (c : cmdline) : cmdline :=
   {| c_globs := c_globs c; c_types := c_types c; c_ignore_files := []; c_global := c_global c |}.
+
+(* Known finding GitlinkExcludeNoRequire: with --no-require-git the code never looks at what `.git` is;
+   it takes dir/.git for the git directory, so for a gitfile root (linked worktree) it finds no
+   info/exclude.  The world as the code reads it: *)
+Definition di_unread_exclude (f : lowflags) (d : dirinfo) : dirinfo :=
+  if f_no_require_git f then match di_dotgit d with GitFile => di_no_exclude d | _ => d end else d.
+Definition gitlink_exclude_world (f : lowflags) (w : world) : world := map_dirs (di_unread_exclude f) w.
+(* the class: --no-require-git is given and some directory of the chain is a gitfile root *)
+Definition GitlinkExcludeNoRequire (f : lowflags) (w : world) : Prop :=
+  f_no_require_git f = true /\ exists d, In d (w_above w ++ w_below w) /\ di_dotgit d = GitFile.
 
 Definition erase_dot := map_dirs di_no_dot.
 Definition erase_exclude := map_dirs di_no_exclude.
